@@ -499,7 +499,18 @@ class ResultQuantifier(CanBehaveLikeAVariable[T], ABC):
         This is the exposed evaluation method for users.
         """
         SymbolGraph().remove_dead_instances()
+        self._forget_conclusions_of_previous_evaluations_()
         yield from map(self._process_result_, self._evaluate__())
+
+    def _forget_conclusions_of_previous_evaluations_(self):
+        """
+        The conclusion selectors of a rule tree remember the bindings they concluded for in order to not conclude twice
+        in one evaluation; a new evaluation starts without that memory.
+        """
+        for node in self._descendants_:
+            # variables turn any attribute access into a symbolic attribute, so look into the instance dictionary.
+            for seen_set in vars(node).get("concluded_before", {}).values():
+                seen_set.clear()
 
     def _evaluate__(
         self,
